@@ -169,9 +169,10 @@ def check(ctx):
             lits.append('func S%d(a string) bool {\n\treturn strings.Contains(a, %s) || a == %s || strings.HasPrefix(a, %s)\n}\n\n'
                         % (nlit, json.dumps(lit1, ensure_ascii=False), json.dumps("marker-%d" % nlit), json.dumps("/etc/cfg%d" % pad)))
             nlit += 1
-    files = {"a.go": gogen.render_file("pk", funcs), "b.go": minigo.render_file("pk", items), "c.go": "".join(lits)}
+    files = {"a.go": gogen.render_file("pk", funcs), "b.go": minigo.render_file("pk", items).replace("example.com/minigo/", "example.com/c05/pk/"), "c.go": "".join(lits)}
     v0 = os.path.join(base, "v0")
     gogen.write_module(os.path.join(v0, "pk"), "pk", files, module="example.com/c05/pk")
+    minigo.write_support(os.path.join(v0, "pk"))
     variants = [("v0", v0, {})]
     nvar = 6 if thorough else 4
     for vi in range(1, nvar + 1):
@@ -179,6 +180,7 @@ def check(ctx):
         os.makedirs(os.path.join(d, "pk"))
         with open(os.path.join(d, "pk", "go.mod"), "w") as fh:
             fh.write("module example.com/c05/pk\n\ngo 1.21\n")
+        minigo.write_support(os.path.join(d, "pk"))
         fmap = {}
         for fi, fn in enumerate(sorted(files)):
             mp = os.path.join(d, fn + ".map.json")
